@@ -34,6 +34,17 @@ TYPING_OPAQUE = {"Final", "Literal", "TypeAlias", "Self", "Annotated", "Any", "O
                  "Collection", "MutableMapping", "Hashable", "Sized", "Container", "Generator", "Set"}
 
 
+
+def kterm(v):
+    from .interp_sym import kterm as _kterm  # interp_sym imports this module
+    return _kterm(v)
+
+
+class KeysT(tuple):
+    """dict.keys() of a constant dict: ordered like a tuple, compares with sets like a set."""
+    __slots__ = ()
+
+
 class LazyDefault:
     __slots__ = ("src", "module")
 
@@ -1039,6 +1050,14 @@ class LibMixin:
     def lib_operator_attrgetter(self, a, kw, run, node):
         return PartialV(LibFn.get("getattr_swapped"), [a[0]], {})
 
+    def lib_operator_itemgetter(self, a, kw, run, node):
+        if len(a) != 1 or kw:
+            self.limit("operator.itemgetter with several keys", node)
+        return PartialV(LibFn.get("getitem_swapped"), [a[0]], {})
+
+    def lib_getitem_swapped(self, a, kw, run, node):
+        return self.getitem(a[1], a[0], run, node)
+
     def lib_getattr_swapped(self, a, kw, run, node):
         return self.getattr_(a[1], a[0], run, node)
 
@@ -1140,6 +1159,18 @@ class LibMixin:
             return Sym(("localtime", name, ("k", repr(o))), "datetime" if name == "astimezone" else "float", env_dependent=True)
         if any(not is_concrete(x) for x in list(rest) + list(kw.values())):
             return self.sym_method(o, name, rest, kw, run, node)
+        if isinstance(o, str) and name in ("format", "format_map"):
+            import string as _string
+            try:
+                fields = [f for _, f, _, _ in _string.Formatter().parse(o) if f is not None]
+            except ValueError as e:
+                self.throw("ValueError", str(e), node)
+            plain = (int, str, bytes, float, bool, type(None))
+            if name == "format_map" or any("." in f or "[" in f for f in fields) or \
+                    any(not isinstance(x, plain) for x in list(rest) + list(kw.values())):
+                # attribute / item access inside a replacement field, or an argument that is not a plain constant (an enum member, an
+                # instance): the text is not computed here -- a string the analysis knows nothing about, never a native exception
+                return Sym(("format", ("k", o), tuple(kterm(x) for x in rest), tuple((k, kterm(v)) for k, v in sorted(kw.items()))), "str")
         a2 = [self.to_native(x, node) for x in rest]
         k2 = {k: self.to_native(v, node) for k, v in kw.items()}
         try:
@@ -1174,7 +1205,7 @@ class LibMixin:
         if name in ("items", "keys", "values"):
             if d.may:
                 self.limit("view of a weakly updated dict", node)
-            return tuple(getattr(d.d, name)())
+            return KeysT(d.d.keys()) if name == "keys" else tuple(getattr(d.d, name)())
         if name == "get":
             k = a[0]
             default = a[1] if len(a) > 1 else None
@@ -1456,7 +1487,7 @@ class LibMixin:
             self.throw("TypeError", str(e), node)
         self.limit(f"unary {op}", node)
 
-    def values_equal(self, a, b, run, node):
+    def values_equal(self, a, b, run, node):  # noqa: C901
         """Python `==` on abstract values; returns bool or Sym."""
         if isinstance(a, Sym) or isinstance(b, Sym):
             return self.sym_compare("eq", a, b, run, node)
@@ -1482,6 +1513,11 @@ class LibMixin:
             if any(isinstance(c, LibClass) and c.name == "int" for c in ea.cls.mro) and isinstance(other, int):
                 return ea.value == other
             return False
+        if (isinstance(a, KeysT) and isinstance(b, (frozenset, KeysT))) or (isinstance(b, KeysT) and isinstance(a, frozenset)):
+            try:
+                return frozenset(a) == frozenset(b)  # a keys view compares like a set
+            except TypeError:
+                self.limit("comparison of a keys view holding unhashable keys", node)
         if isinstance(a, tuple) and isinstance(b, tuple):
             if len(a) != len(b):
                 return False
